@@ -10,6 +10,7 @@ mod model;
 mod rng;
 mod simdisk;
 
+mod p11;
 mod p13;
 
 use driver::*;
@@ -19,6 +20,10 @@ use std::path::PathBuf;
 macro_rules! families {
     ($id:expr, $f:ident => $body:expr) => {
         match $id {
+            "C11" => {
+                type $f = p11::C11;
+                $body
+            }
             "C13" => {
                 type $f = p13::C13;
                 $body
